@@ -77,6 +77,8 @@ fn variant_json(v: &Variant) -> Value {
         Head::IfCase(n) => json!({"ifcase": n}),
         Head::IfOddText(t) => json!({"ifodd_text": t}),
         Head::IfCaseText(t) => json!({"ifcase_text": t}),
+        Head::IfEof(n) => json!({"ifeof": n}),
+        Head::IfHarness(b) => json!({"ifharness": b}),
         Head::ActiveTrue => json!("active-true"),
         Head::TrueActiveFi => json!("true-active-fi"),
         Head::FalseActiveFi => json!("false-active-fi"),
@@ -103,6 +105,10 @@ fn variant_parse(v: &Value) -> Variant {
         Head::IfOddText(SIGNED.iter().copied().find(|x| *x == t).expect("known operand text"))
     } else if let Some(t) = h["ifcase_text"].as_str() {
         Head::IfCaseText(SIGNED.iter().copied().find(|x| *x == t).expect("known operand text"))
+    } else if let Some(n) = h["ifeof"].as_i64() {
+        Head::IfEof(n)
+    } else if let Some(b) = h["ifharness"].as_bool() {
+        Head::IfHarness(b)
     } else if let Some(n) = h["ifodd"].as_i64() {
         Head::IfOdd(n)
     } else {
@@ -215,6 +221,9 @@ fn check_tree_how(idx: u64, c: &Cond, full_state: bool, distinct: bool, via_macr
         ("live_case_branch_ended_by_or", f.live_branch_ended_by_or),
         ("active_character_conditional_alias_live", f.active_alias_live),
         ("active_character_conditional_alias_in_skipped_text", f.active_alias_in_skipped_text),
+        ("skipped_text_contains_ifeof", f.skipped_ifeof),
+        ("skipped_text_contains_condition_without_doc", f.skipped_harness_condition),
+        ("ifeof_or_harness_condition_evaluated", f.live_ifeof_or_harness_condition),
         ("depth_ge_4", f.depth >= 4),
         ("depth_6", f.depth >= 6),
     ] {
@@ -299,6 +308,10 @@ fn all_conditions() -> Vec<Variant> {
         v.push(Variant::new(Head::IfFalse, 0, e));
         v.push(Variant::new(Head::AliasTrue, 0, e));
         v.push(Variant::new(Head::ActiveTrue, 0, e));
+        v.push(Variant::new(Head::IfEof(0), 0, e));
+        v.push(Variant::new(Head::IfEof(15), 0, e));
+        v.push(Variant::new(Head::IfHarness(true), 0, e));
+        v.push(Variant::new(Head::IfHarness(false), 0, e));
         v.push(Variant::new(Head::TrueActiveFi, 0, e));
         v.push(Variant::new(Head::FalseActiveFi, 0, e));
         let ops = [-2147483647i64, -3, -1, 0, 1, 2, 2147483646, 2147483647];
@@ -326,7 +339,7 @@ fn all_conditions() -> Vec<Variant> {
 }
 
 /// Contexts in which a probe conditional is placed (index, description).
-const N_CONTEXTS: u64 = 10;
+const N_CONTEXTS: u64 = 11;
 fn in_context(k: u64, p: Cond) -> Cond {
     let l = || Item::Letter;
     let t = |e: bool| Variant::new(Head::IfTrue, 0, e);
@@ -342,6 +355,8 @@ fn in_context(k: u64, p: Cond) -> Cond {
         6 => Cond { v: case(1, 2, false), bodies: vec![vec![l()], vec![Item::Cond(p), l()], vec![l()]] },
         7 => Cond { v: case(5, 1, true), bodies: vec![vec![l()], vec![l()], vec![Item::Cond(p)]] },
         8 => Cond { v: case(0, 0, true), bodies: vec![vec![l()], vec![Item::Cond(p)]] },
+        // in a case after the selected one (skipped by the \\or that ends the selected case)
+        10 => Cond { v: case(0, 2, false), bodies: vec![vec![l()], vec![Item::Cond(p), l()], vec![l()]] },
         _ => Cond { v: f(false), bodies: vec![vec![Item::Cond(Cond { v: t(false), bodies: vec![vec![Item::Cond(p)]] })]] },
     }
 }
@@ -670,6 +685,36 @@ fn main() {
         ctx.machinery_error(format!("model self-validation failed: {e}"));
         ctx.finish("not run");
     }
+    // Every conditional primitive that the real stdlib installs must be a node variant of the trees: enumerate the
+    // built-in map (by tag of \\iftrue/\\else/\\or/\\fi and, independently, by name) and refuse to run if one is unknown.
+    {
+        use vtex::texlang_stdlib as sl;
+        let real = sl::built_in_commands::<vtex::HState>();
+        let tag_of = |n: &str| real.get(n).and_then(|b| b.cmd().tag());
+        let known_if = ["iftrue", "iffalse", "ifnum", "ifodd", "ifcase", "ifeof"];
+        let known_other = ["else", "or", "fi"];
+        let if_tag = tag_of("iftrue");
+        let closers = [tag_of("else"), tag_of("or"), tag_of("fi")];
+        if if_tag.is_none() || closers.iter().any(|t| t.is_none()) {
+            ctx.machinery_error("\\iftrue / \\else / \\or / \\fi carry no tag in the stdlib's built-in map");
+        }
+        for (name, b) in &real {
+            let t = b.cmd().tag();
+            let by_tag_if = t.is_some() && t == if_tag;
+            let by_tag_closer = t.is_some() && closers.contains(&t);
+            if (by_tag_if || name.starts_with("if")) && !known_if.contains(name) {
+                ctx.machinery_error(format!("the stdlib installs the conditional \\{name}, which is not a node variant of this check's trees"));
+            }
+            if by_tag_closer && !known_other.contains(name) {
+                ctx.machinery_error(format!("the stdlib installs \\{name} with the tag of \\else/\\or/\\fi, unknown to this check"));
+            }
+        }
+        for n in known_if.iter().chain(known_other.iter()) {
+            if !real.contains_key(n) {
+                ctx.machinery_error(format!("\\{n} is no longer in the stdlib's built-in map"));
+            }
+        }
+    }
     let xenvs = x_envs();
 
     if let Some((_fam, case)) = ctx.replay_case() {
@@ -720,7 +765,7 @@ fn main() {
         let cref = &conds;
         ctx.family(
             "conditions-in-contexts",
-            &format!("{} conditions (\\iftrue, \\iffalse, \\let-alias, the active character ~ \\let to \\iftrue, ~ \\let to \\fi closing an \\iftrue / \\iffalse, \\ifnum a R b for a,b in {{-(2^31-1),-3,-1,0,1,2,2^31-2,2^31-1}} x R in {{<,=,>}}, \\ifodd n for n in {{+-3,+-2,+-1,0,+-(2^31-2),+-(2^31-1)}}, \\ifodd and \\ifcase with 8 sign-string operands (--3, -+-3, +-3, - 3, - -3, -0, +2, -- -1), \\ifcase n for n in {{-(2^31-1),-1,0,1,2,3,4,7,2^31-1}} with 0-3 \\or; each with and without \\else) x 10 contexts (top level; live/skipped then- and else-branch; skipped / live / else branch of an \\ifcase; two levels inside skipped text) x 4 body patterns (letter; letter + nested \\iffalse..\\else..\\fi; empty; letter + U+00E9 U+20AC U+1D4B3) x read from the file / read back from a macro expansion x followed by )\\END / last thing in the input", conds.len()),
+            &format!("{} conditions (\\iftrue, \\iffalse, \\let-alias, \\ifeof 0 / 15 (never opened: true), two conditionals the harness implements through the public Condition trait without DOC (\\ifht true, \\ifhf false), the active character ~ \\let to \\iftrue, ~ \\let to \\fi closing an \\iftrue / \\iffalse, \\ifnum a R b for a,b in {{-(2^31-1),-3,-1,0,1,2,2^31-2,2^31-1}} x R in {{<,=,>}}, \\ifodd n for n in {{+-3,+-2,+-1,0,+-(2^31-2),+-(2^31-1)}}, \\ifodd and \\ifcase with 8 sign-string operands (--3, -+-3, +-3, - 3, - -3, -0, +2, -- -1), \\ifcase n for n in {{-(2^31-1),-1,0,1,2,3,4,7,2^31-1}} with 0-3 \\or; each with and without \\else) x 11 contexts (top level; live/skipped then- and else-branch; skipped / live / else branch of an \\ifcase, a case after the selected one; two levels inside skipped text) x 4 body patterns (letter; letter + nested \\iffalse..\\else..\\fi; empty; letter + U+00E9 U+20AC U+1D4B3) x read from the file / read back from a macro expansion x followed by )\\END / last thing in the input", conds.len()),
             n,
             |i, acc| {
                 let d = vcore::digits(i, &radices);
@@ -728,7 +773,7 @@ fn main() {
                 let p = Cond { v: v.clone(), bodies: probe_bodies(v, d[2]) };
                 let c = in_context(d[1], p);
                 // \\iftrue / \\iffalse / alias / \\ifcase probes also occur in the tree families: counted there
-                let distinct = d[3] + d[4] > 0 || d[2] == 3 || matches!(v.head, Head::IfNum(..) | Head::IfOdd(_) | Head::IfOddText(_) | Head::IfCaseText(_) | Head::ActiveTrue | Head::TrueActiveFi | Head::FalseActiveFi);
+                let distinct = d[3] + d[4] > 0 || d[2] == 3 || matches!(v.head, Head::IfNum(..) | Head::IfOdd(_) | Head::IfOddText(_) | Head::IfCaseText(_) | Head::IfEof(_) | Head::IfHarness(_) | Head::ActiveTrue | Head::TrueActiveFi | Head::FalseActiveFi);
                 if matches!(v.head, Head::IfOddText(_) | Head::IfCaseText(_)) {
                     acc.count("operand_with_a_sign_string");
                 }
@@ -1057,6 +1102,9 @@ fn main() {
     ctx.require("tree_read_back_from_a_macro_expansion", "a conditional whose tokens (skipped text included) come from a macro expansion instead of the file");
     ctx.require("tree_is_the_last_thing_in_the_input", "the closing \\fi is the last token of the input");
     ctx.require("truncated_programs", "programs cut off at every position");
+    ctx.require("skipped_text_contains_ifeof", "an \\ifeof .. \\fi inside skipped text");
+    ctx.require("skipped_text_contains_condition_without_doc", "a conditional built from a Condition without DOC inside skipped text");
+    ctx.require("ifeof_or_harness_condition_evaluated", "\\ifeof / the harness conditionals evaluated in live text");
     ctx.require("structured_expandafter_programs", "long chains and reverse-order pyramids of \\expandafter");
     ctx.require("full_state_runs", "cases re-run on the full vtex::HState");
     ctx.finish("trees: every tree of the enumerated families on a fresh VM, compared token by token with the letters of the selected branches (non-trivial = at least one branch skipped and at least one delivered); strings: every token string of the family run three times (non-trivial = contains \\expandafter, something was expanded and TeX delivers tokens). distinct_nontrivial counts a case once: re-runs on the full state are not counted, trees of trees-deep / conditions-in-contexts / chains and programs of expandafter-structured that another family also enumerates are counted only there (the counters trees_with_a_skipped_and_a_delivered_branch and strings_where_expandafter_acts_and_tex_delivers give the totals with repetitions)");
